@@ -71,6 +71,9 @@ func (n *Node) WalkBackToBack(targets ...[]byte) error {
 	})
 }
 
+// WithRecovery is withRecovery for callers that drive State.Walk themselves.
+func (n *Node) WithRecovery(f func() error) error { return n.withRecovery(f) }
+
 // withRecovery runs f (which may call State.Walk any number of times) and then waits for every
 // pool recovery goroutine those walks started. A walk announces the goroutine synchronously,
 // before it returns: "utxo walk finish" on success, "walk failed, recover unconfirm tx" on a
